@@ -444,6 +444,25 @@ func (x *X) havocTarget(env *SpecEnv, st *State, text string, spec *FuncSpec) {
 			c.setHeap(st, "$g!Store", c.fresh("Store", SArr("KeyT", "OptBytes")), nil)
 			return
 		}
+		if n.Name == "heaps" {
+			// every Go heap known so far (pointer, element and map heaps), but no ghost state:
+			// frame of library decoders that fill an interface{} argument by reflection
+			var names []string
+			for h := range st.heaps {
+				if isGoHeap(h) {
+					names = append(names, h)
+				}
+			}
+			sort.Strings(names)
+			for _, h := range names {
+				c.setHeap(st, h, c.fresh("hv", st.hsorts[h]), nil)
+			}
+			st.lazyAll = true
+			if st.wlog != nil {
+				*st.wlog = append(*st.wlog, WriteRec{lazyAllName, nil, st.pc})
+			}
+			return
+		}
 		if g, ok := x.prog.contracts.ghostGlobals[n.Name]; ok {
 			s, err := x.prog.sortOfTypeText(g, env.pkg)
 			if err != nil {
@@ -479,6 +498,28 @@ func (x *X) havocTarget(env *SpecEnv, st *State, text string, spec *FuncSpec) {
 		c.storePtrRange(st, pt.Elem(), base.S(), lo, c.freshValue("mod_"+n.Sel.Name, ft))
 	case *ast.CallExpr:
 		id, _ := n.Fun.(*ast.Ident)
+		if id != nil && id.Name == "reach" {
+			// reach(pN): every heap reachable by type from the N-th actual argument (its static
+			// type at the call site when the parameter is an interface); no ghost state unless
+			// the native service is reachable
+			an, _ := n.Args[0].(*ast.Ident)
+			idx := -1
+			if an != nil && len(an.Name) > 1 && an.Name[0] == 'p' {
+				fmt.Sscanf(an.Name[1:], "%d", &idx)
+			}
+			v := x.specGo(env, pe, n.Args[0])
+			t := v.T
+			if _, isIface := t.Underlying().(*types.Interface); isIface && idx >= 0 && idx < len(x.argStatic) && x.argStatic[idx] != nil {
+				if _, isTuple := x.argStatic[idx].(*types.Tuple); !isTuple {
+					t = x.argStatic[idx]
+				}
+			}
+			save := x.argStatic
+			x.argStatic = nil
+			x.havocReachable(st, nil, []Value{{T: t}}, spec.Key)
+			x.argStatic = save
+			return
+		}
 		if id == nil || (id.Name != "elems" && id.Name != "mapof") {
 			fail("%s: bad modifies %q", spec.Key, text)
 		}
@@ -555,12 +596,63 @@ func (x *X) reachableHeaps(t types.Type, out map[string]Sort, seen map[string]bo
 			x.reachableHeaps(u.Field(i).Type(), out, seen, all, store)
 		}
 	case *types.Interface:
-		if !isErrorType(t) {
+		if isErrorType(t) {
+			return
+		}
+		if u.NumMethods() == 0 {
+			// the empty interface can hold anything
 			*all = true
+			*store = true
+			return
+		}
+		// a non-empty interface can hold only values of types that implement it: what it
+		// reaches is what those types reach (boxed values live in the pointer heaps of their type)
+		for _, it := range x.implementers(key, u) {
+			x.reachableHeaps(types.NewPointer(it), out, seen, all, store)
 		}
 	case *types.Signature, *types.Chan:
+		// a closure or a channel peer may hold anything
 		*all = true
+		*store = true
 	}
+}
+
+// implementers: the named non-interface types of all loaded packages (and their imports) whose
+// value or pointer method set satisfies the interface.
+func (x *X) implementers(key string, u *types.Interface) []types.Type {
+	if x.implCache == nil {
+		x.implCache = map[string][]types.Type{}
+	}
+	if r, ok := x.implCache[key]; ok {
+		return r
+	}
+	var paths []string
+	for path := range x.prog.allPkgs {
+		paths = append(paths, path)
+	}
+	sort.Strings(paths)
+	res := []types.Type{}
+	for _, path := range paths {
+		sc := x.prog.allPkgs[path].Scope()
+		for _, nm := range sc.Names() {
+			tn, ok := sc.Lookup(nm).(*types.TypeName)
+			if !ok || tn.IsAlias() {
+				continue
+			}
+			nt, ok := tn.Type().(*types.Named)
+			if !ok || nt.TypeParams().Len() > 0 {
+				continue
+			}
+			if _, isIface := nt.Underlying().(*types.Interface); isIface {
+				continue
+			}
+			if types.Implements(nt, u) || types.Implements(types.NewPointer(nt), u) {
+				res = append(res, nt)
+			}
+		}
+	}
+	x.implCache[key] = res
+	return res
 }
 
 // havocReachable: an unknown callee may modify anything reachable from its arguments.
@@ -586,13 +678,17 @@ func (x *X) havocReachable(st *State, recv *Value, args []Value, who string) {
 		}
 	}
 	if all {
-		// everything known so far, plus what was computed
-		for h, s := range st.hsorts {
-			if strings.HasPrefix(h, "H!") || strings.HasPrefix(h, "E!") || strings.HasPrefix(h, "M!") {
-				out[h] = s
+		// every heap in use gets a fresh symbol below; every other Go heap, including ones
+		// this function has not named yet, becomes arbitrary on first use (lazyAll)
+		for h, s := range st.heaps {
+			if isGoHeap(h) {
+				out[h] = s.Sort
 			}
 		}
-		store = true
+		st.lazyAll = true
+		if st.wlog != nil {
+			*st.wlog = append(*st.wlog, WriteRec{lazyAllName, nil, st.pc})
+		}
 		c.note("call to " + who + " havocs every heap (interface/function argument)")
 	}
 	var names []string
@@ -601,8 +697,9 @@ func (x *X) havocReachable(st *State, recv *Value, args []Value, who string) {
 	}
 	sort.Strings(names)
 	for _, h := range names {
-		c.heap(st, h, out[h]) // make sure the initial symbol exists (old() may read it)
-		c.setHeap(st, h, c.fresh("hv", out[h]), nil)
+		// a heap already in use gets a fresh symbol now; the others are only marked and get
+		// theirs if they are ever used (old() reads the entry state, which is separate)
+		c.lazyHavoc(st, h, out[h])
 	}
 	if store {
 		c.heap(st, "$g!Store", SArr("KeyT", "OptBytes"))
